@@ -198,6 +198,7 @@ for _n in _ANY_UNARY + _ANY_BINARY:
 class _AnyAttribute:
     params = dict(name=ObjOf(STRING_X))
     never_returns = True
+    dispatch = True  # overridden by Set, SerializableType, CompositeType (each with its own contract)
     raises = {"UndefinedAttributeError": lambda s: True}
 
 
@@ -673,14 +674,57 @@ def CONTAINS(s, sub):
     return sub in s
 
 
+_SIMPLE_ESCAPES = {"r": "\r", "n": "\n", "t": "\t", '"': '"', "'": "'", "\\": "\\"}
+
+
+def DECODE_STRING(literal):
+    """The Specification's meaning of a string literal (None: malformed).  Escape table: \\r \\n \\t \\" \\' \\\\ (the letter in
+    either case), \\uXXXX, \\UXXXXXXXX with a code point below 0x110000; every other escape is malformed - in particular
+    \\xHH, octal escapes and \\0 do not exist in DSDL."""
+    body, out, i = literal[1:-1], [], 0
+    while i < len(body):
+        ch = body[i]
+        i += 1
+        if ch != "\\":
+            out.append(ch)
+            continue
+        if i >= len(body):
+            return None
+        e = body[i]
+        i += 1
+        if e in "uU":
+            n = 4 if e == "u" else 8
+            h = body[i:i + n]
+            if len(h) < n or any(c not in "0123456789abcdefABCDEF" for c in h):
+                return None
+            i += n
+            if int(h, 16) >= 0x110000:
+                return None
+            out.append(chr(int(h, 16)))
+        elif e.lower() in _SIMPLE_ESCAPES:
+            out.append(_SIMPLE_ESCAPES[e.lower()])
+        else:
+            return None
+    return "".join(out)
+
+
+_STRING_TEXTS = ["''", "'abc'", '"x y"', "'\\n'", "'\\r'", "'\\t'", "'\\\"'", '"\\\'"', "'\\\\'", "'a\\nb\\tc'", "'\\u0041'", "'\\u00e9'",
+                 "'\\U0001F600'", "'\\U0010ffff'", "'\\ud800'", "'\\uAbCd'", '"it\'s"',
+                 # malformed
+                 "'\\x41'", "'\\101'", "'\\0'", "'\\z'", "'\\u12'", "'\\uZZZZ'", "'\\U0000004'", "'\\U00110000'", "'\\UFFFFFFFF'",
+                 "'\\'", "'\\u'", "'ab\\'"]
+
+
 @contract(PARSER + "_parse_string_literal", props=P)
 class _ParseStringLiteral:
     """Domain: a literal delimited by one of the two quote characters whose body does not contain that quote character
     (the grammar admits it after a backslash; such literals are not covered).  Any malformed escape sequence - including
-    a \\U escape beyond the last code point - is a syntax error, never anything else."""
-    params = dict(literal=Str)
+    a \\U escape beyond the last code point - is a syntax error, never anything else.  Symbolic literal: exception classes;
+    concrete literals (every entry of the escape table, well-formed and malformed): the decoded text, value by value,
+    against DECODE_STRING."""
+    instances = [{"literal": Str}] + [{"literal": t} for t in _STRING_TEXTS]
     returns = STRR
-    raises = {"DSDLSyntaxError": None}
+    raises_if = {"DSDLSyntaxError": lambda s: (DECODE_STRING(s.literal) is None) if isinstance(s.literal, str) else True}
 
     def pre(s):
         lit = s.literal
@@ -689,6 +733,10 @@ class _ParseStringLiteral:
                 "no-quote-inside": NOT(CONTAINS(BODY(lit), CHAR_AT(lit, 0)))}
 
     def post(s):
+        if isinstance(s.literal, str):
+            want = DECODE_STRING(s.literal)
+            return {"class": is_str(s.result),
+                    "decoded": AND(want is not None, lambda: EQ(sv(s.result), want))}
         return {"class": is_str(s.result)}
 
 
@@ -964,52 +1012,103 @@ class _PTPSpec:
     fields = {}
 
 
-def INT_LITERAL_OK(text, base):
-    """the text (digit separators removed) is an integer literal acceptable to int(text, base)"""
-    if smt():
-        from pyvc.values import Str as _S
+# The Specification's literal syntax and meaning, written independently of the code (regular expressions of the
+# Specification's grammar; positional notation; `_` is a digit separator without meaning).
+import re as _re
 
-        return X.INT_OK(X.STRREPL(_S.unwrap(text), z3.StringVal("_"), z3.StringVal("")), z3.IntVal(base))
-    try:
-        int(text.replace("_", ""), base)
-        return True
-    except ValueError:
-        return False
+SPEC_INT = {0: _re.compile(r"0[bB](_?[01])+|0[oO](_?[0-7])+|0[xX](_?[0-9a-fA-F])+|(0(_?0)*)+|[1-9](_?[0-9])*"),
+            10: _re.compile(r"(0(_?0)*)+|[1-9](_?[0-9])*")}
+_D = r"[0-9](_?[0-9])*"
+SPEC_REAL = _re.compile(r"((%s)?\.%s|%s\.)([eE][+-]?%s)?|%s[eE][+-]?%s" % (_D, _D, _D, _D, _D, _D))
+
+
+def INDEP_INT(text):
+    """value of an integer literal: digits in the indicated base, separators ignored"""
+    t = text.replace("_", "")
+    base = 10
+    if t[:2].lower() in ("0x", "0b", "0o"):
+        base, t = {"x": 16, "b": 2, "o": 8}[t[1].lower()], t[2:]
+    v = 0
+    for ch in t:
+        v = v * base + "0123456789abcdef".index(ch.lower())
+    return fractions.Fraction(v)
+
+
+def INDEP_REAL(text):
+    """value of a real literal: mantissa * 10 ** exponent, exactly"""
+    t = text.replace("_", "").lower()
+    mant, _, exp = t.partition("e")
+    ip, _, fp = mant.partition(".")
+    v = fractions.Fraction(int(ip or "0")) + (fractions.Fraction(int(fp), 10 ** len(fp)) if fp else 0)
+    if exp:
+        v *= fractions.Fraction(10) ** ((-1 if exp[0] == "-" else 1) * int(exp.lstrip("+-")))
+    return v
+
+
+def _rv_const(fr):
+    return z3.RealVal(str(fr.numerator)) / z3.RealVal(str(fr.denominator))
+
+
+def _clean(text):
+    from pyvc.values import Str as _S
+
+    return X.clean_underscores(_S.unwrap(text))
+
+
+def INT_LITERAL_OK(text, base):
+    """the text is an integer literal of the Specification (base 0: any of the four notations; 10: decimal)"""
+    if isinstance(text, str):
+        return SPEC_INT[base].fullmatch(text) is not None
+    return X.INT_OK(_clean(text), z3.IntVal(base))  # symbolic text: what the grammar rule guarantees (uninterpreted)
 
 
 def INT_LITERAL_VALUE(text, base):
-    if smt():
-        from pyvc.values import Str as _S
-
-        return z3.ToReal(X.INT_VALUE(X.STRREPL(_S.unwrap(text), z3.StringVal("_"), z3.StringVal("")), z3.IntVal(base)))
-    return fractions.Fraction(int(text.replace("_", ""), base))
+    if isinstance(text, str):
+        v = INDEP_INT(text)
+        return _rv_const(v) if smt() else v
+    c = _clean(text)
+    dig = lambda t, b: z3.ToReal(X.DIGITS(t, z3.IntVal(b)))
+    if base == 10:
+        return dig(c, 10)
+    body = z3.SubString(c, 2, z3.Length(c) - 2)
+    starts = lambda *ps: z3.Or(*[z3.PrefixOf(z3.StringVal(p), c) for p in ps])
+    return z3.If(starts("0x", "0X"), dig(body, 16), z3.If(starts("0o", "0O"), dig(body, 8),
+                                                         z3.If(starts("0b", "0B"), dig(body, 2), dig(c, 10))))
 
 
 def REAL_LITERAL_OK(text):
-    if smt():
-        from pyvc.values import Str as _S
-
-        return X.FRAC_OK(X.STRREPL(_S.unwrap(text), z3.StringVal("_"), z3.StringVal("")))
-    try:
-        fractions.Fraction(text.replace("_", ""))
-        return True
-    except (ValueError, ZeroDivisionError):
-        return False
+    if isinstance(text, str):
+        return SPEC_REAL.fullmatch(text) is not None
+    return X.FRAC_OK(_clean(text))
 
 
 def REAL_LITERAL_VALUE(text):
-    if smt():
-        from pyvc.values import Str as _S
+    if isinstance(text, str):
+        v = INDEP_REAL(text)
+        return _rv_const(v) if smt() else v
+    return X.FRAC_VALUE(_clean(text))  # symbolic text: the exact decimal value of the cleaned text (uninterpreted)
 
-        return X.FRAC_VALUE(X.STRREPL(_S.unwrap(text), z3.StringVal("_"), z3.StringVal("")))
-    return fractions.Fraction(text.replace("_", ""))
+
+def _node(text):
+    from pyvc.values import RecV
+
+    return RecV("Node", {"text": text})
 
 
-def _literal_visitor(name, ok, value):
+_INT_TEXTS = ["0", "00", "0_0", "7", "1_000", "123456789012345678901234567890", "0x_1F", "0XdeadBEEF", "0xA_b", "0o17", "0O7_7",
+              "0b1", "0B1_0_1", "0b0000"]
+_DEC_TEXTS = ["0", "0_0", "9", "1_000", "255"]
+_REAL_TEXTS = ["1.5", ".5", "5.", "1e3", "1e-5", "2.5E-3", "1_0.2_5e-1_0", ".5e+2", "5.e2", "1E0", "0.0", "123.456e-7"]
+
+
+def _literal_visitor(name, ok, value, texts=()):
     class _C:
         """Precondition = what the grammar rule guarantees about the matched text (checked against the real grammar by
         the bounded literal enumeration, see EXTRA_CHECKS); then the visitor cannot raise and yields the literal's value."""
-        params = dict(node=NodeK, _c=X.OpaqueK)
+        params = dict(_c=X.OpaqueK)
+        # the symbolic text (all texts, decoding functions uninterpreted) and a finite sample of concrete texts of every
+        # notation, on which the real code is executed and compared with the independent decoder above
+        instances = [{"node": NodeK}] + [{"node": _node(t)} for t in texts]
         returns = RATR
 
         def pre(s):
@@ -1022,9 +1121,9 @@ def _literal_visitor(name, ok, value):
     contract(PTP + name, props=P)(_C)
 
 
-_literal_visitor("visit_literal_integer", lambda t: INT_LITERAL_OK(t, 0), lambda t: INT_LITERAL_VALUE(t, 0))
-_literal_visitor("visit_literal_integer_decimal", lambda t: INT_LITERAL_OK(t, 10), lambda t: INT_LITERAL_VALUE(t, 10))
-_literal_visitor("visit_literal_real", REAL_LITERAL_OK, REAL_LITERAL_VALUE)
+_literal_visitor("visit_literal_integer", lambda t: INT_LITERAL_OK(t, 0), lambda t: INT_LITERAL_VALUE(t, 0), _INT_TEXTS)
+_literal_visitor("visit_literal_integer_decimal", lambda t: INT_LITERAL_OK(t, 10), lambda t: INT_LITERAL_VALUE(t, 10), _DEC_TEXTS)
+_literal_visitor("visit_literal_real", REAL_LITERAL_OK, REAL_LITERAL_VALUE, _REAL_TEXTS)
 
 
 def _bool_literal(name, v):
@@ -1244,3 +1343,48 @@ class _SetAttribute:
                                lambda: FORALL_MEMBER(s.self, lambda x: rv(s.result) <= rv(x))),
                 "max": IMPLIES(AND(_name_is(s, "max"), ET_IS(s.self, RATIONAL_X)),
                                lambda: FORALL_MEMBER(s.self, lambda x: rv(s.result) >= rv(x)))}
+
+
+# ------------------------------------------------------------------------------------------------ operator chains
+def FOLDL(first, chain, n, named):
+    """((first op_1 r_1) op_2 r_2) ... op_n r_n : the left fold of the first n (operator, right operand) groups"""
+    if smt():
+        return X.fold_term(speclib.CTX, chain, first, n if not isinstance(n, int) else z3.IntVal(n), named)
+    acc = first
+    for item in list(chain)[:n]:
+        acc = item[1](acc, item[3])
+    return acc
+
+
+def LEN_(seq):
+    from pyvc.speclib import LEN
+
+    return LEN(seq)
+
+
+def _same_value(a, b):
+    return a is b or (type(a) is type(b) and a == b)
+
+
+@contract(PTP + "_visit_binary_operator_chain", props=P)
+class _VisitChain:
+    """`operand (op operand)*` evaluates left to right: the operators are applied in the order of appearance, each to
+    (value so far, next operand) - never with the operands swapped.  Two shapes of the chain: the right operands are
+    expression values (all binary operator levels) or identifiers (attribute level)."""
+    instances = [{"children": X.TupleOf(ObjOf(ANY), SeqOf(X.ChainItemK(False)))},
+                 {"children": X.TupleOf(ObjOf(ANY), SeqOf(X.ChainItemK(True)))}]
+    params = dict(_n=X.OpaqueK)
+    returns = ObjOf(ANY)
+    raises_if = {"InvalidOperandError": lambda s: True}
+
+    def post(s):
+        first, chain = s.children[0], s.children[1]
+        named = smt() and chain.kind.named
+        want = FOLDL(first, chain, LEN_(chain), named)
+        return {"left-fold": s.result.ref == want if smt() else _same_value(s.result, want)}
+
+
+@loop_invariant(PTP + "_visit_binary_operator_chain", loop=0)
+def _inv_chain(s):
+    acc = list(s.carried.values())[0]  # the accumulator, whatever the code calls it
+    return {"prefix-folded": acc.ref == X.fold_term(s.ctx, s.seq, s.children[0], s.i, s.seq.kind.named)}
